@@ -354,6 +354,26 @@ CLAIMS["C08"] = dict(
               "in-memory HDF5 model + z3 (LIA/LRA), structural tree diff",
     ref="3/C08")
 
+CLAIMS["C04"] = dict(
+    text="The real RTDC_Hierarchy / HierarchyFilter / index mappers / "
+         "Child* feature wrappers / Filter.update / set_temporary_feature run "
+         "symbolically over a stub root dataset for bounded HISTORY "
+         "SKELETONS (root filter, range filters and manual exclusions on any "
+         "level, temporary features, root configuration change, refreshes); "
+         "every operation argument is symbolic.  After every refresh z3 "
+         "proves for every level: len(child) == #selected, every feature "
+         "kind == parent restricted in order, manual array == complement of "
+         "the ghost set of excluded ROOT events (incl. hidden ones coming "
+         "back), child filter == manual & range.",
+    note="Trusted: z3, symx, numpy shim, root stub. Bounds: 3 (thorough 4) "
+         "root events, depth 1..3 (thorough ..4), <= 9 (12) operations. "
+         "Re-inclusion of excluded events and edits on a stale child are "
+         "outside the claim.",
+    technique="symbolic execution of the real Python code objects "
+              "(path-forking, z3 LIA/LRA) over bounded symbolic histories + "
+              "concrete replay with a plain-Python oracle",
+    ref="3/C04")
+
 NOT_APPLICABLE = {
 }
 
